@@ -4,6 +4,7 @@ import time
 from .. import framework as fw, kernels, kern
 
 FUNCTIONS = [
+    'compiler/universe.py, compiler/functors.py, compiler/rule_translate.py, compiler/expr_translate.py, compiler/dialects.py, type_inference/research/*.py: whole compilation (LogicaProgram.__init__ + FormattedPredicateSql) under CrossHair, sources instrumented at import so that every ordered consumption of a set consults a symbolic order (PerformIterationClosure, SortUnnestings, RecursiveAnalysis, UpdateStructure, CallFunctor, ...)',
     'parser_py/parse.py: TOO_MUCH, EnactIncantations, ParseGenericCall (real code under CrossHair in both parser modes; counterexamples replayed end to end through ParseFile + LogicaProgram)',
     'compiler/expr_translate.py: QL.__init__, InstallBulkFunctionsOfStandardSQL, CleanOperatorsAndFunctions, class-level tables BUILT_IN_FUNCTIONS / BUILT_IN_INFIX_OPERATORS / BULK_FUNCTIONS (real code under CrossHair over all histories of two earlier dialects)',
 ]
@@ -157,12 +158,153 @@ def is_sticky_mode(op):
   return before != after, {'program': text, 'sql_before': before, 'sql_after_incantation_program': after}
 
 
+def _fresh_digests(progs):
+  """{name: digest of what a fresh interpreter compiles}; one process per program"""
+  import json, os, subprocess, sys
+  from .. import variants
+  from . import c13_kernel as CK
+  repo = os.environ.get('VERIF_REPO', '/repo')
+  src = kern.PRELUDE % repo + variants.prelude(False) + CK.COMMON + CK.FRESH_SCRIPT
+  out = {}
+  for name, text, pred in progs:
+    r = subprocess.run([sys.executable, '-c', src], input=json.dumps([[name, text, pred]]), stdout=subprocess.PIPE,
+                       stderr=subprocess.STDOUT, text=True, env=dict(os.environ, PYTHONHASHSEED='0'))
+    for line in r.stdout.splitlines():
+      if line.startswith('DIGESTS '):
+        out.update(json.loads(line[8:]))
+    if name not in out:
+      raise RuntimeError('fresh compile of %s failed: %s' % (name, r.stdout[-600:]))
+  return out
+
+
+def order_source(nmasks):
+  from .. import variants, ordset
+  from . import c13_kernel as CK
+  src = ordset.PRELUDE + variants.prelude(True) + CK.COMMON
+  names = []
+  for name, text, pred in CK.PROGRAMS:
+    n, sfn = CK.order_kernel(name, text, pred, nmasks)
+    names.append(n)
+    src += sfn
+  return src, names
+
+
+def history_source():
+  from .. import variants
+  from . import c13_kernel as CK
+  fresh = _fresh_digests(CK.DIALECT_PROGRAMS)
+  src = variants.prelude(False) + CK.COMMON + CK.HISTORY_HEAD
+  # fill the library memo without compiling anything (no history is created at import)
+  src += '\nfrom compiler import dialects as _d\nfor _e in ["sqlite", "bigquery", "psql", "duckdb", "trino", "presto", "clickhouse", "databricks"]:\n  universe.parse.ParseFile(_d.Get(_e).LibraryProgram())\n'
+  names = []
+  for name, text, pred in CK.DIALECT_PROGRAMS:
+    n, sfn = CK.history_kernel(name, text, pred, fresh[name])
+    names.append(n)
+    src += sfn
+  reuse = ['unnest', 'mutual_two_annotations', 'functors', 'ground_plan', 'combines', 'min_path']
+  n, sfn = CK.reuse_kernel(reuse)
+  names.append(n)
+  src += sfn
+  return src, names, fresh
+
+
+def replay_order(name, args):
+  """1. the same compilation, same mask, in a fresh interpreter (real code, a legal set order);
+     2. a search for two real PYTHONHASHSEED values that give different SQL (uninstrumented)."""
+  import os, re, subprocess, sys, tempfile, shutil
+  from .. import variants, ordset
+  from . import c13_kernel as CK
+  m = re.match(r'k_order_(.*)_(\d+)$', name)
+  prog = [p for p in CK.PROGRAMS if p[0] == m.group(1)][0]
+  mm = re.search(r'-?\d+', args or '')
+  mask = int(m.group(2)) + (int(mm.group(0)) if mm else 0)
+  repo = os.environ.get('VERIF_REPO', '/repo')
+  d = tempfile.mkdtemp(prefix='logica_verif_c13r_')
+  try:
+    p = os.path.join(d, 'replay.py')
+    with open(p, 'w') as f:
+      f.write(kern.PRELUDE % repo + ordset.PRELUDE + variants.prelude(False) + CK.COMMON + r"""
+import sys
+rules = rules_of(%r)
+ORACLE.reset(0)
+a = observe(copy.deepcopy(rules), %r)
+ORACLE.reset(%d)
+b = observe(copy.deepcopy(rules), %r)
+print('EVENTS', ORACLE.events, ORACLE.permuted)
+if a != b:
+  import difflib
+  print('\n'.join(list(difflib.unified_diff(str(a[1]).splitlines(), str(b[1]).splitlines(), lineterm='', n=1))[:40]))
+sys.exit(7 if a != b else 0)
+""" % (prog[1], prog[2], mask, prog[2]))
+    r = subprocess.run([sys.executable, p], stdout=subprocess.PIPE, stderr=subprocess.STDOUT, text=True)
+    reproduced = r.returncode == 7
+    seeds = {}
+    if reproduced:
+      plain = kern.PRELUDE % repo + variants.prelude(False) + CK.COMMON + CK.FRESH_SCRIPT
+      import json
+      for hs in range(0, 24):
+        rr = subprocess.run([sys.executable, '-c', plain], input=json.dumps([list(prog)]), stdout=subprocess.PIPE,
+                            stderr=subprocess.STDOUT, text=True, env=dict(os.environ, PYTHONHASHSEED=str(hs)))
+        for line in rr.stdout.splitlines():
+          if line.startswith('DIGESTS '):
+            seeds.setdefault(json.loads(line[8:])[prog[0]], []).append(hs)
+    return (reproduced, 'the emitted SQL depends on the iteration order of a set (mask %d)%s' % (
+        mask, '; PYTHONHASHSEED values giving different SQL: %s' % sorted(seeds.values())[:2] if len(seeds) > 1 else
+        '; no two hash seeds in 0..23 differ, the order is one a set may legally take'),
+            {'program': prog[1], 'predicate': prog[2], 'mask': mask, 'diff': r.stdout[-1500:],
+             'hash_seed_classes': sorted(seeds.values())})
+  finally:
+    shutil.rmtree(d, ignore_errors=True)
+
+
+def replay_history(name, args):
+  import os, re, subprocess, sys, json
+  from .. import variants
+  from . import c13_kernel as CK
+  repo = os.environ.get('VERIF_REPO', '/repo')
+  if name == 'k_reuse_rules':
+    reuse = ['unnest', 'mutual_two_annotations', 'functors', 'ground_plan', 'combines', 'min_path']
+    progs = [p for p in CK.PROGRAMS if p[0] in reuse]
+    mm = re.search(r'-?\d+', args or '')
+    prog = progs[min(int(mm.group(0)) if mm else 0, len(progs) - 1)]
+    script = kern.PRELUDE % repo + variants.prelude(False) + CK.COMMON + r"""
+import sys
+rules = rules_of(%r)
+snap = copy.deepcopy(rules)
+a = observe(rules, %r)
+b = observe(rules, %r)
+print('same sql:', a == b, 'rules untouched:', rules == snap)
+sys.exit(0 if a == b and rules == snap else 7)
+""" % (prog[1], prog[2], prog[2])
+    r = subprocess.run([sys.executable, '-c', script], stdout=subprocess.PIPE, stderr=subprocess.STDOUT, text=True)
+    return (r.returncode == 7, 'compiling the same parsed rules object twice differs / mutates the rules', {'program': prog[1], 'output': r.stdout[-500:]})
+  target = [p for p in CK.DIALECT_PROGRAMS if 'k_history_' + p[0] == name][0]
+  nums = re.findall(r'-?\d+', args or '')
+  j = min(int(nums[0]) if nums else 0, len(CK.DIALECT_PROGRAMS) - 1)
+  twice = 'True' in (args or '')
+  hist = [CK.DIALECT_PROGRAMS[j]] + ([CK.DIALECT_PROGRAMS[(j + 3) % len(CK.DIALECT_PROGRAMS)]] if twice else [])
+  script = kern.PRELUDE % repo + variants.prelude(False) + CK.COMMON + r"""
+import sys, hashlib
+for text, pred in %r:
+  observe(rules_of(text), pred)
+got = observe(rules_of(%r), %r)
+print(got[1][:1500] if got[0] == 'sql' else got)
+print('DIGEST', hashlib.sha1(repr(got).encode('utf-8')).hexdigest())
+""" % ([(h[1], h[2]) for h in hist], target[1], target[2])
+  r = subprocess.run([sys.executable, '-c', script], stdout=subprocess.PIPE, stderr=subprocess.STDOUT, text=True)
+  fresh = _fresh_digests([target])[target[0]]
+  got = [l.split()[1] for l in r.stdout.splitlines() if l.startswith('DIGEST ')]
+  return (bool(got) and got[0] != fresh,
+          'the SQL of a program depends on which programs were compiled earlier in the process (after %s)' % [h[0] for h in hist],
+          {'target': target[1], 'history': [h[1] for h in hist], 'sql_after_history': r.stdout[-1500:], 'fresh_digest': fresh})
+
+
 def run():
   t0 = time.time()
   out = fw.Outcome('C13', 'other', t0)
-  TNAMES = []
-  res = {}
-  # parser mode: CrossHair proposes fragments whose parse depends on the module-level switch;
+  thorough = fw.tier() == 'thorough'
+  from . import c13_kernel as CK
+  # (a) parser mode: CrossHair proposes fragments whose parse depends on the module-level switch;
   # a violation is claimed only if a program containing the incantation really changes the
   # SQL of a later compilation of the same text
   r2 = kern.check(HEAD, ['k_call_parse_mode_free'], timeout=120)
@@ -191,25 +333,45 @@ def run():
                     dict(property='C13', kernel='k_call_parse_mode_free', op=hit[0], **hit[1]))
   elif v != 'confirmed':
     out.hard_inconclusive.append('parser mode kernel: CrossHair %s' % v)
-  ok = [n for n in TNAMES if res[n].get('verdict') == 'confirmed']
+  # (b) hash seed = set iteration order, over whole compilations
+  nmasks = 256 if thorough else 16
+  osrc, onames = order_source(nmasks)
+  ores = kernels.run_kernels(out, 'set iteration order (hash seed)', osrc, onames, 7200 if thorough else 900, replay_order)
+  # (c) history of earlier compilations, reuse of a parsed rules object
+  hsrc, hnames, fresh = history_source()
+  hres = kernels.run_kernels(out, 'history of earlier compilations', hsrc, hnames, 1800, replay_history)
+  ok_o = [n for n in onames if ores[n].get('verdict') == 'confirmed' and ores[n].get('twin') == 'reachable']
+  ok_h = [n for n in hnames if hres[n].get('verdict') == 'confirmed' and hres[n].get('twin') == 'reachable']
+  nparser = 1 + len(cov['parser mode'].get('candidates_replayed', []))
   out.coverage.update({
-      'evaluations': 1 + len(cov['parser mode'].get('candidates_replayed', [])),
-      'distinct_nontrivial': (1 if v in ('confirmed', 'counterexample') else 0) + len(cov['parser mode'].get('candidates_replayed', [])),
-      'rule': 'one case = the parser-mode kernel over every one-character operator between a number and a call, plus each candidate replayed end to end',
-      'samples': [{'kernel': n, 'verdict': res[n].get('verdict')} for n in TNAMES[:2]] + [
+      'evaluations': nparser + len(onames) * nmasks + (len(hnames) - 1) * 16 + 6,
+      'distinct_nontrivial': (1 if v in ('confirmed', 'counterexample') else 0) + len(ok_o) * (nmasks - 1) + len([n for n in ok_h if n != 'k_reuse_rules']) * 16 + (6 if 'k_reuse_rules' in ok_h else 0),
+      'rule': ('one case = (program, set-order mask) | (target dialect program, history of one or two earlier compilations) | '
+               '(program compiled twice from one rules object) | the parser-mode kernel; counted when its kernel is '
+               '"Confirmed over all paths" with a violated reachability twin; mask 0 is the baseline and not counted'),
+      'samples': [{'kernel': onames[0], 'program': CK.PROGRAMS[0][1], 'masks': nmasks, 'verdict': ores[onames[0]].get('verdict')},
+                  {'kernel': hnames[0], 'target': CK.DIALECT_PROGRAMS[0][1], 'fresh_process_digest': fresh.get(CK.DIALECT_PROGRAMS[0][0]),
+                   'verdict': hres[hnames[0]].get('verdict')},
                   {'kernel': 'k_call_parse_mode_free', 'verdict': v}],
       'functions_encoded': FUNCTIONS,
-      'explanation': ('Only one process-state mechanism named in the property is decided: CrossHair searches every one-character operator op '
-                      'for which parse.ParseGenericCall("3" op "F(2)") depends on the module-level switch parse.TOO_MUCH; each candidate is '
-                      'replayed end to end on the real code: compile A, parse a program containing the incantation, compile A again, compare the SQL. '
-                      'If CrossHair confirms mode independence there is nothing a previous program can change through this switch.'),
+      'bounds': {'set_order_masks': nmasks, 'programs': [p[0] for p in CK.PROGRAMS],
+                 'history': 'one or two earlier compilations drawn from 8 dialect programs, then the target (8 targets)',
+                 'reuse': 'each of 6 programs compiled twice from the same parsed rules object'},
+      'explanation': ('(a) CrossHair searches every one-character operator op for which parse.ParseGenericCall("3" op "F(2)") depends on the '
+                      'module-level switch parse.TOO_MUCH; candidates are replayed end to end.  (b) The hash seed can reach the SQL only through '
+                      'the iteration order of sets: every ordered consumption of an iterable in the compiler sources is rewritten at import (AST) '
+                      'to consult an oracle; CrossHair runs the whole compilation of each catalogue program for every mask of a pair-separating '
+                      'family of orders and the SQL + export map must equal the canonical-order result.  (c) Whole compilations in sequence: any '
+                      'one or two of eight dialect programs, then a target whose result must have the digest a fresh interpreter produced; the same '
+                      'rules object compiled twice.  All whole-compilation kernels use the cuts of lv/variants.py.'),
       'design_ref': 'DESIGN.md §3 C13',
   })
   out.assumptions = [
-      'decided: history dependence through the module-level parser switch parse.TOO_MUCH',
-      'NOT decided (no workable symbolic handle): Python hash-seed / process variation and set-iteration order while emitting statements, reuse of a parsed rules object, class-level tables of expr_translate.QL and caches in other modules.  Attempts: a harness over 3 history bits around whole compilations did not finish its 8 paths under CrossHair in 900 s; a harness constructing two QL objects per path (8 paths) did not finish in 900 s either (deepcopy of the 600-entry function table under tracing)',
+      'hash-seed channel = set iteration order (no hash(), id(), random in the compiler; time only in the stop-file name, which is normalised)',
+      'set orders explored: the mask family of lv/ordset.py (canonical order permuted by i -> i XOR mask, one mask per compilation, %d masks); this separates every pair of elements of every set of up to %d elements but is not every combination of orders across the 20-900 iteration events of a compilation' % (nmasks, nmasks),
+      'history: sequences of at most two earlier compilations of fixed dialect programs; parsing happens at harness import (the parser-mode channel is decided separately by kernel (a)); imports and flags are not varied',
+      'cuts: dialect-library parse memoised; the CSV function table is replaced by two entries in the set-order kernels (not in the history kernels)',
   ]
-  # distinct_nontrivial must be >= 2 for the evidence schema: both kernels decided
   return out.finish()
 
 
